@@ -264,6 +264,28 @@ def run_history(h, crash_at=None, torn=False):
                                 pivs_all.append((li, p))
                                 if ctx.sequence_number_chunksize > h["chunk_start"]:
                                     crossed_chunk = True
+                        elif op[0] == "own":
+                            # the context is a client of the same peer as well: a request of its own, answered by an
+                            # ordinary response (which re-uses the request's nonce and carries no Partial IV)
+                            m = aiocoap.Message(code=aiocoap.GET, payload=b"q")
+                            try:
+                                outer, rid_own = ctx.protect(m)
+                            except oscore.ContextUnavailable:
+                                continue
+                            p = piv_of(outer)
+                            if any(p == q for _, q in pivs_all):
+                                first = [l_ for l_, q in pivs_all if q == p][0]
+                                vio.append(V("C13/sender-sequence-number-reused", "partial IV %d issued in lifetime %d and again in lifetime %d (own request; crash %r)" % (p, first, li, crash_at)))
+                            last_piv = p
+                            pivs_all.append((li, p))
+                            try:
+                                w_own, _ = E.over_the_wire(outer, mid=55)
+                                _inner, rid_peer = peer.unprotect(w_own)
+                                resp_outer, _ = peer.protect(aiocoap.Message(code=aiocoap.CONTENT, payload=b"a"), rid_peer)
+                                w_resp, _ = E.over_the_wire(resp_outer, mid=56)
+                                ctx.unprotect(w_resp, rid_own)
+                            except oscore.ProtectionInvalid as e_own:
+                                vio.append(V("C13/own-exchange-fails", repr(e_own)))
                         elif op[0] in ("unprotect", "verify"):
                             if op[0] == "unprotect":
                                 todo = []
@@ -389,9 +411,11 @@ def _history(draw):
     for _ in range(nl):
         ops = []
         for _ in range(draw(st.integers(1, 4))):
-            kind = draw(st.sampled_from(["protect", "protect", "unprotect"]))
+            kind = draw(st.sampled_from(["protect", "protect", "unprotect", "unprotect", "own"]))
             if kind == "protect":
                 ops.append(["protect", draw(st.sampled_from([1, 2, 9, 10, 11, 29, 30, 31, 70]))])
+            elif kind == "own":
+                ops.append(["own"])
             else:
                 ops.append(["unprotect", draw(st.integers(1, 3)), draw(st.sampled_from(["plain", "recover", "recover"]))])
         lifetimes.append({"ops": ops, "end": draw(st.sampled_from(["clean", "clean", "crash"]))})
